@@ -9,6 +9,7 @@ import Vgw.Driver.BucketName
 import Vgw.Driver.Path
 import Vgw.Driver.Walk
 import Vgw.Driver.Conc
+import Vgw.Driver.ConcVer
 import Vgw.Driver.Proxy
 import Vgw.Driver.IAM
 import Vgw.Driver.Robust
@@ -37,6 +38,7 @@ def dispatch (d : DriverState) (line : String) : DriverState × String :=
   | "robust" :: rest => (d, (Vgw.Driver.Robust.handle rest).getD "bad-op")
   | "proxy" :: rest => (d, (Vgw.Driver.Proxy.handle rest).getD "bad-op")
   | "conc" :: rest => (d, (Vgw.Driver.Conc.handle rest).getD "bad-op")
+  | "concver" :: rest => (d, (Vgw.Driver.ConcVer.handle rest).getD "bad-op")
   | "bucketname" :: rest => (d, (Vgw.Driver.BucketName.handle rest).getD "bad-op")
   | "glob" :: rest => (d, (Vgw.Driver.Policy.globHandle rest).getD "bad-op")
   | "policy" :: rest => (d, (Vgw.Driver.Policy.handle rest).getD "bad-op")
